@@ -226,13 +226,7 @@ Theorem C09_check_ok_sound : forall line cs c tag pos diag,
 Proof. exact check_ok_sound. Qed.
 Print Assumptions C09_check_ok_sound.
 
-(* per kind / per observable *)
-Theorem C09_compare_stats_sound : forall sorted hasw xs ws o c tag pos diag,
-  (hasw = true -> length ws = length xs) ->
-  check_stats sorted hasw xs ws o = verdict c tag pos diag -> (c = 0 \/ c = 1)%Z -> stats_ok sorted hasw xs ws o.
-Proof. exact check_stats_sound. Qed.
-Print Assumptions C09_compare_stats_sound.
-
+(* the parts of case_ok for histories: one query; the whole run (relative to the model store) *)
 Theorem C09_compare_query_sound : forall s mst m sm w b1 b2 vst v,
   query_ok s mst m sm w b1 b2 vst v = None -> query_obs_ok s mst m sm w b1 b2 vst v.
 Proof. exact query_ok_sound. Qed.
@@ -242,38 +236,6 @@ Theorem C09_compare_history_sound : forall ops st idx tag tag' pos diag,
   run_hist st ops idx tag = (0%Z, tag', pos, diag) -> hist_ok st ops.
 Proof. exact run_hist_sound. Qed.
 Print Assumptions C09_compare_history_sound.
-
-Theorem C09_compare_vec_sound : forall v d, check_vec v = (true, d) -> vec_ok v.
-Proof. exact check_vec_sound. Qed.
-Print Assumptions C09_compare_vec_sound.
-
-(* the single comparisons: mean, variance, standard deviation (through the square), bounds *)
-Theorem C09_compare_mean_sound : forall xs tol st o, f_close tol (mean xs) st o = true ->
-  st = 0%Z /\ match xs with [] => o = XNaN | _ => exists q, o = XFin q /\ Qabs (q - mean_def xs) <= tol end.
-Proof. exact mean_sound. Qed.
-Print Assumptions C09_compare_mean_sound.
-
-Theorem C09_compare_variance_sound : forall xs st o,
-  f_close (tol_var xs (var_val (variance xs))) (variance xs) st o = true ->
-  st = 0%Z /\ match xs with [] => o = XNaN
-              | _ => exists q, o = XFin q /\ Qabs (q - var_spec xs) <= tol_var xs (var_spec xs) end.
-Proof. exact variance_sound. Qed.
-Print Assumptions C09_compare_variance_sound.
-
-Theorem C09_compare_stddev_sound : forall xs st o,
-  f_close_sqrt (tol_var xs (var_val (variance xs)) + 8 * ulp53 * var_val (variance xs)) (variance xs) st o = true ->
-  st = 0%Z /\ match xs with [] => o = XNaN
-              | _ => exists s, o = XFin s /\ 0 <= s /\ Qabs (s * s - var_spec xs) <= tol_std xs (var_spec xs) end.
-Proof. exact stddev_sound. Qed.
-Print Assumptions C09_compare_stddev_sound.
-
-Theorem C09_compare_bounds_sound : forall l omin omax, b_eq (bounds l) omin omax = true ->
-  match l with
-  | [] => omin = XNaN /\ omax = XNaN
-  | _ => exists a b, omin = XFin a /\ omax = XFin b /\ is_min a l /\ is_max b l
-  end.
-Proof. exact bounds_sound. Qed.
-Print Assumptions C09_compare_bounds_sound.
 
 (* GeoMean of at most 64 unweighted values (tag bit 32): exp / ln are never evaluated — the observed g is positive and
    its n-th power is within the relative tolerance geo_rel n = 64 n (n + 8) 2^-52 of the product of the values *)
